@@ -39,6 +39,25 @@ REGISTRY["C04"] = l2("C04", "dtd", ["harness/l2/dtd_driver.c"], ["harness/l2/dtd
 REGISTRY["C17"] = l2("C17", "dtd", ["harness/l2/dtd_driver.c"], ["harness/l2/dtd.c"], 4, DTD_REAL,
     "as C03 with partial flushes (random subset of tiles) or flush_all; owner copy after flush+wait compared with the last writer in insertion order",
     knobs=["prop=17"])
+PTG_PROGS = ["chain", "branch", "wave", "gather", "steps", "newnull", "startup"]
+PTG_ALL = [(p, m) for p in PTG_PROGS for m in ("dynamic-hash-table", "index-array")]
+PTG_REAL = ["ptgpp (the real PTG compiler: jdf.c, jdf2c.c, parsec.y) run on generated JDF programs", "the generated startup / release_deps / data_lookup code, instrumented",
+            "all of libparsec, instrumented (parsec.c, scheduling.c, scheduler modules, datarepo.c, mempool.c, hash tables, remote_dep*.c, parsec_mpi_funnelled.c, termdet modules)",
+            "harness/l2/ptg_driver.c (rankified with the library and the generated code, one copy per simulated rank)"]
+PTG_BOUNDS = ("7 generated PTG programs (RW chains with derived locals, range fan-out + ternary routing, triangular wavefront with NEW/NULL, CTL range gather/fan-out, "
+              "negative and expression steps, WRITE<-NEW broadcast to readers, stepped dependency ranges and many startup tasks) x 2 dependency back-ends; "
+              "sizes N<=6 M<=4 L,S<=3 (<= ~60 task instances), 1-8 threads, 11 schedulers, task_startup_iter/chunk in {default,1,2,7}, keep_highest_priority_task")
+
+def ptg(prop, knobs, ranks, bounds_extra="", quick=(120, 200000), thorough=(1800, 20000000), progs=None, engine="simcore-L1", **kw):
+    d = {"property": prop, "harness": "ptg", "ptg": progs or PTG_ALL, "ranked": ranks, "real": PTG_REAL, "stub": L2_STUB,
+         "bounds": PTG_BOUNDS + bounds_extra, "engine": engine, "knobs_cli": list(knobs),
+         "budget": {"quick": {"time": quick[0], "runs": quick[1]}, "thorough": {"time": thorough[0], "runs": thorough[1]}}}
+    d.update(kw)
+    return d
+
+REGISTRY["C01"] = ptg("C01", ["prop=1"], 4, "; 1-4 ranks for placement", engine="simcore-L2")
+REGISTRY["C02"] = ptg("C02", ["prop=2", "nranks=1"], 1)
+REGISTRY["C16"] = ptg("C16", ["prop=16", "nranks=1", "again_pct=40"], 1, "; bodies return AGAIN 1-5 times for 40% of the instances")
 
 # fragments written per property (one file each, so that harnesses can be developed independently)
 import glob, os as _os
